@@ -32,6 +32,9 @@ RULE = ('(a,b) Configurations in the statement\'s domain (dict keys quote-free, 
         'FiddleFlagSerializer round trip. (e) CallExpression.parse on generated literal argument '
         'lists and on non-literal / splatted arguments (canary import). Non-trivial: >=3 leaves '
         'resp. >=3 directives; distinct = sketch / directive list.')
+RULE_ADDITIONS = (' Added by the rounds of seeded changes (DESIGN 9.7): ' +
+                  'escape sequences in quoted keys; repeated call expressions with mutable literals edited in place; same-named callables and shared empty containers in flag values; equal mutable literal overrides; dict keys with .digit; container-valued base configurations with immutable fiddlers; string literals spelling the words of other literal syntaxes')
+RULE = RULE + RULE_ADDITIONS
 ASSUMPTIONS = [
     'keys that are the empty string are excluded (not representable in the documented path syntax)',
     'pseudo-leaves of as_str_flattened for unset parameters / tagged values are not override '
